@@ -44,6 +44,21 @@ def gen_case(rng):
             "wipe_default": rng.random() < 0.5,
             # upstream drops the preferred compression variant while its package set changes
             "variant_drop": rng.random() < 0.2}
+    if rng.random() < 0.15:
+        # byte-identical sibling indices of one directory under by-hash (they share their by-hash files)
+        case["twin"] = True
+        for r in scn.repos:
+            r["config"]["byhash"] = "force"
+            for cn, c in r["version"]["codenames"].items():
+                c["byhash"] = True
+                for comp, cc in c["components"].items():
+                    cc["contents"] = True
+                    cc["contents_identical"] = True
+                    cc["arches"].setdefault("amd64", [])
+                    cc["arches"].setdefault("i386", [])
+                if cn in r["config"]["codenames"]:
+                    for comp in r["config"]["codenames"][cn]:
+                        r["config"]["codenames"][cn][comp]["arches"] = ["amd64", "i386"]
     if case["variant_drop"]:
         case["prior"] = True
         for r in scn.repos:
